@@ -101,10 +101,78 @@ def run(cmd, cwd=None, timeout=3000, env=None):
         return 124, (e.stdout or "") + "\nTIMEOUT", time.time() - t
 
 
+# trial runs against a scratch copy of the repository (tools/try_seeded.py): VERIF_REPO points to the copy and
+# VERIF_OUT to a scratch directory for evidence / replays, so that /repo and the committed evidence stay untouched
+OUT = os.environ.get("VERIF_OUT", VERIF)
+TRIAL = os.environ.get("VERIF_REPO", "/repo") != "/repo"
+
+
+class build_lock:
+    """checks may run side by side: builds of the shared coq/ tree are serialised"""
+
+    def __enter__(self):
+        import fcntl
+        self.f = open(os.path.join(COQ, ".build.lock"), "w")
+        fcntl.flock(self.f, fcntl.LOCK_EX)
+
+    def __exit__(self, *a):
+        import fcntl
+        fcntl.flock(self.f, fcntl.LOCK_UN)
+        self.f.close()
+
+
 def ensure_build():
     """Incremental full (.vo) build + extraction + driver. Returns (ok, log)."""
-    rc, out, _ = run(["bash", os.path.join(VERIF, "build.sh")], timeout=3400)
+    with build_lock():
+        rc, out, _ = run(["bash", os.path.join(VERIF, "build.sh")], timeout=3400)
     return rc == 0 and "build-ok" in out, out
+
+
+def kernel_ties(names):
+    """Second tie (translator): regenerate coq/Gen/K_<name>.v from /repo's current source and re-check the hand-written
+    lemma coq/Gen/K_<name>_eq.v that equates it with the model.  Returns (info list, problems)."""
+    import translate
+    infos, problems = [], []
+    gen = os.path.join(COQ, "Gen")
+    with build_lock():
+        for name in names:
+            info = {"kernel": name, "translated": False, "lemma_checked": False}
+            infos.append(info)
+            gfile = os.path.join(gen, name + ".v")
+            saved = open(gfile).read() if TRIAL and os.path.exists(gfile) else None
+            try:
+                kernel_tie(name, gen, info, problems)
+            finally:
+                if saved is not None and open(gfile).read() != saved:
+                    # a trial run must not leave the translation of a scratch copy behind
+                    open(gfile, "w").write(saved)
+                    run(["timeout", "300", "coqc", "-Q", ".", "MV", f"Gen/{name}.v"], cwd=COQ, timeout=320)
+    return infos, problems
+
+
+def kernel_tie(name, gen, info, problems):
+    import translate
+    ok, msg = translate.generate(name, gen)
+    if not ok:
+        problems.append(("obligation", f"kernel tie {name}: {msg}"))
+        return
+    info["translated"] = True
+    head = open(msg).read().split("\n", 1)[0]
+    info["source"] = head.strip("(* ").strip()
+    rc, out, _ = run(["timeout", "300", "coqc", "-Q", ".", "MV", f"Gen/{name}.v"], cwd=COQ, timeout=320)
+    if rc != 0:
+        problems.append(("obligation", f"kernel tie {name}: the generated definition does not compile: " + out[-600:]))
+        return
+    rc, out, _ = run(["timeout", "300", "coqc", "-Q", ".", "MV", f"Gen/{name}_eq.v"], cwd=COQ, timeout=320)
+    if rc != 0:
+        problems.append(("obligation", f"kernel tie {name}: lemma Gen/{name}_eq.v (translated source = model) no longer checks: " + out[-900:]))
+        return
+    closed, axioms = parse_assumptions(out)
+    if axioms - ALLOWED_AXIOMS or closed + out.count("Axioms:") < 1:
+        problems.append(("obligation", f"kernel tie {name}: unexpected assumptions " + ", ".join(sorted(axioms))))
+        return
+    info["lemma_checked"] = True
+    info["lemma"] = f"Gen/{name}_eq.v"
 
 
 def theorem_names(vfile):
@@ -134,7 +202,7 @@ def parse_assumptions(out):
     return closed, axioms
 
 
-def proof_obligations(pid, tier):
+def proof_obligations(pid, tier, mod=None):
     """Re-check Properties/<pid>.v. Returns dict for the evidence + list of problems."""
     problems = []
     ok, log = ensure_build()
@@ -166,6 +234,9 @@ def proof_obligations(pid, tier):
     bad = scan_sources()
     if bad:
         problems.append(("obligation", "forbidden vernacular: " + "; ".join(f"{f}: {w}" for f, w in bad)))
+    kinfo, kproblems = kernel_ties(getattr(mod, "KERNELS", [])) if mod is not None else ([], [])
+    info["kernels"] = kinfo
+    problems += kproblems
     if not problems:
         info["discharged"] = len(names)
     if tier == "thorough":
@@ -264,7 +335,7 @@ class Check:
         if replay:
             return self.replay(replay)
 
-        info, problems = proof_obligations(pid, tier)
+        info, problems = proof_obligations(pid, tier, mod)
 
         # corpus first, then generated
         cases = []
@@ -331,11 +402,11 @@ class Check:
         for fid, (f, r) in seen_known.items():
             known_lines.append(f"KNOWN-FINDING: property={pid} {f['what']}")
 
-        os.makedirs(os.path.join(VERIF, "replays"), exist_ok=True)
+        os.makedirs(os.path.join(OUT, "replays"), exist_ok=True)
         replay_paths = []
 
         def write_replay(name, payload):
-            p = os.path.join(VERIF, "replays", f"{pid}-{seed}-{name}.json")
+            p = os.path.join(OUT, "replays", f"{pid}-{seed}-{name}.json")
             json.dump(payload, open(p, "w"), indent=1)
             replay_paths.append(p)
             return p
@@ -422,6 +493,7 @@ class Check:
                 "known_findings_seen": sorted(seen_known.keys()),
                 "input_distribution": stats,
                 "coqc_s": info.get("coqc_s"),
+                "translated_kernels": info.get("kernels", []),
             },
             "assumptions": getattr(mod, "ASSUMPTIONS", []),
             "wall_s": round(time.time() - t0, 2),
@@ -434,8 +506,8 @@ class Check:
         if tier == "thorough":
             ev["coverage"]["coqchk_rc"] = info.get("coqchk_rc")
             ev["coverage"]["coqchk_s"] = info.get("coqchk_s")
-        os.makedirs(os.path.join(VERIF, "evidence"), exist_ok=True)
-        json.dump(ev, open(os.path.join(VERIF, "evidence", pid + ".json"), "w"), indent=1)
+        os.makedirs(os.path.join(OUT, "evidence"), exist_ok=True)
+        json.dump(ev, open(os.path.join(OUT, "evidence", pid + ".json"), "w"), indent=1)
 
         for l in known_lines:
             print(l)
